@@ -42,7 +42,10 @@ def run(ctx, chk):
     cfgs = ctx.configs()
     ctx.prefetch(cfgs)
     for cfg in cfgs:
-        fsm = get_fsm(ctx, cfg)
+        # "data = the payload bytes, for a completed group their concatenation": the delivered data
+        # term of every cell against the reference machine (shared with C05)
+        from .c05 import compare
+        fsm = compare(ctx, chk, "C07", cfg, ctx.tier)
         m = fsm.m
         talker_leaves, report_leaves = set(), set()
         n = 0
